@@ -25,7 +25,7 @@ var ev = kit.Ev("C04")
 
 func init() {
 	ev.Rule("two real endpoints (client and server Authenticator, both with encryption REQUIRED) talk through a frame-aware man-in-the-middle relay; handshake shapes: no authentication, CLAIMTOBE, TOKEN, FS, resumed session; " +
-		"a baseline run records the cleartext frames per direction; mutations addressed as (direction, frame index, byte offset incl. header, substitute in {^0x01, ^0x80, 0x00, 'A'}) for EVERY offset of every cleartext frame, " +
+		"a baseline run records the cleartext frames per direction; mutations addressed as (direction, frame index, byte offset incl. header, substitute in {^0x01, ^0x80, 0x00, 'A'}) for EVERY offset of every cleartext frame, the end-flag byte of every frame additionally set to 9 (thorough: all 256) values and every length byte moved by +-1, " +
 		"plus an empty partial frame inserted before every frame, every frame removed, every frame split in two, adjacent partial frames merged; oracle: after the handshake calls return, every endpoint that reported success sends " +
 		"one application message and tries to read one -- no endpoint that reported success may ACCEPT an application message in a run where the relay changed a byte; the unmodified run must succeed and exchange messages both ways; " +
 		"non-trivial = the mutation really changed bytes of a frame both endpoints got far enough to exchange; distinct by (shape, direction, frame, offset, substitute)")
@@ -37,7 +37,7 @@ type Mut struct {
 	Dir   int    `json:"dir"`  // 0 client->server, 1 server->client
 	Frame int    `json:"frame"`
 	Off   int    `json:"off"`
-	Sub   int    `json:"sub"` // 0 ^0x01, 1 ^0x80, 2 0x00, 3 'A'
+	Sub   int    `json:"sub"` // 0 ^0x01, 1 ^0x80, 2 0x00, 3 'A', 4 +1, 5 -1, 100+v: set to v
 }
 
 type Case struct {
@@ -101,6 +101,14 @@ func relay(dir int, src, dst *kit.BufConn, m Mut, rs *relayStats, mu *sync.Mutex
 						nf[m.Off] = 0x00
 					case 3:
 						nf[m.Off] = 'A'
+					case 4:
+						nf[m.Off]++
+					case 5:
+						nf[m.Off]--
+					default: // 100+v: set to v
+						if m.Sub >= 100 {
+							nf[m.Off] = byte(m.Sub - 100)
+						}
 					}
 					if nf[m.Off] != old {
 						mu.Lock()
@@ -340,6 +348,21 @@ func TestC04Tamper(t *testing.T) {
 					}
 					for _, sb := range subs {
 						cases = append(cases, Case{Shape: sh, M: Mut{Kind: "byte", Dir: dir, Frame: fi, Off: off, Sub: sb}})
+					}
+					if off == 0 { // the end-of-message flag: every value a receiver might take for "end" or "more"
+						vals := []int{0, 2, 3, 5, 9, 10, 11, 0x7f, 0xff}
+						if kit.Thorough() {
+							vals = vals[:0]
+							for v := 0; v < 256; v++ {
+								vals = append(vals, v)
+							}
+						}
+						for _, v := range vals {
+							cases = append(cases, Case{Shape: sh, M: Mut{Kind: "byte", Dir: dir, Frame: fi, Off: 0, Sub: 100 + v}})
+						}
+					} else if off < 5 { // the length field: off by one either way
+						cases = append(cases, Case{Shape: sh, M: Mut{Kind: "byte", Dir: dir, Frame: fi, Off: off, Sub: 4}},
+							Case{Shape: sh, M: Mut{Kind: "byte", Dir: dir, Frame: fi, Off: off, Sub: 5}})
 					}
 				}
 				for _, k := range []string{"insert-empty", "remove", "split", "merge"} {
